@@ -293,14 +293,22 @@ fn minimise(e: &EngineDef, v: &Violation) -> (Violation, u32) {
     let mut best = v.clone();
     let start = now_secs();
     let mut tried = 0u32;
+    let par = nworkers().max(1) as usize;
     'outer: loop {
         let cands = (e.shrink)(&best.scenario);
-        for c in cands {
-            if tried >= 1500 || now_secs() - start > 180.0 {
+        // candidates are judged in fresh processes, a batch at a time in parallel; the first
+        // one (in the shrinker's order) that still shows the same violation class is taken
+        for chunk in cands.chunks(par) {
+            if tried >= 3000 || now_secs() - start > 180.0 {
                 break 'outer;
             }
-            tried += 1;
-            if let Some(nv) = still_fails(e, &c, &best.class) {
+            tried += chunk.len() as u32;
+            let class = best.class.clone();
+            let results: Vec<Option<Violation>> = std::thread::scope(|sc| {
+                let hs: Vec<_> = chunk.iter().map(|c| { let class = class.clone(); sc.spawn(move || still_fails(e, c, &class)) }).collect();
+                hs.into_iter().map(|h| h.join().unwrap_or(None)).collect()
+            });
+            if let Some(nv) = results.into_iter().flatten().next() {
                 best = Violation { seed: v.seed, ..nv };
                 continue 'outer;
             }
@@ -461,7 +469,7 @@ pub fn check(id: &str, tier: &str) -> i32 {
     let mut reported = vec![];
     let mut seen_min = std::collections::BTreeSet::new();
     for (idx, (_sig, v)) in by_sig.iter().enumerate() {
-        if idx >= 6 {
+        if idx >= std::env::var("VERIF_MAX_REPORT").ok().and_then(|x| x.parse().ok()).unwrap_or(6usize) {
             break;
         }
         let (mv, tried) = minimise(&e, v);
